@@ -3,8 +3,11 @@ package compose
 import (
 	"context"
 	"errors"
+	"fmt"
 	"io"
 	"strings"
+
+	"github.com/cloudwego/eino/schema"
 )
 
 // C13: node failures surface as identifiable, unwrappable errors; panics are contained.
@@ -446,4 +449,58 @@ func VerifC13HandlerPanic() {
 	vquiesce()
 	vassert(rerr != nil, "the run fails with an error")
 	vassert(strings.Contains(rerr.Error(), "panic"), "the error says what happened")
+}
+
+var c13WrappedEOF = fmt.Errorf("read response body: %w", io.EOF)
+
+// A node's stream fails in the middle with an error that merely wraps io.EOF (a truncated read): wherever the
+// framework turns the stream into a value (Invoke over a streaming node, a successor that cannot stream, a nested
+// graph), the failure surfaces as the run's error - it is not taken for the end of the stream.
+func VerifC13WrappedEOF() {
+	ctx := context.Background()
+	vcfg("fifo", 1)
+	vcfg("selectfirst", 1)
+	src := StreamableLambda(func(ctx context.Context, in string) (*schema.StreamReader[string], error) {
+		sr, sw := schema.Pipe[string](2)
+		sw.Send("partial", nil)
+		sw.Send("", c13WrappedEOF)
+		sw.Close()
+		return sr, nil
+	})
+	g := NewGraph[string, string]()
+	_ = g.AddLambdaNode("src", src)
+	_ = g.AddEdge(START, "src")
+	if vchoose("successor", 2) == 1 {
+		_ = g.AddLambdaNode("next", InvokableLambda(func(ctx context.Context, in string) (string, error) { return in + "!", nil }))
+		_ = g.AddEdge("src", "next")
+		_ = g.AddEdge("next", END)
+	} else {
+		_ = g.AddEdge("src", END)
+	}
+	r, err := g.Compile(ctx)
+	vassert(err == nil, "graph compiles")
+	var rerr error
+	if vchoose("stream", 2) == 1 {
+		sr, e := r.Stream(ctx, "x")
+		rerr = e
+		if e == nil {
+			for i := 0; i < 4; i++ {
+				_, e := sr.Recv()
+				if e == io.EOF {
+					break
+				}
+				if e != nil {
+					rerr = e
+					break
+				}
+			}
+			sr.Close()
+		}
+	} else {
+		_, rerr = r.Invoke(ctx, "x")
+	}
+	vassert(rerr != nil, "a stream that fails with an error wrapping io.EOF makes the run fail (the truncated output is not returned as complete)")
+	if rerr != nil {
+		vassert(errors.Is(rerr, c13WrappedEOF), "and the original error can be recovered")
+	}
 }
